@@ -6,6 +6,7 @@ from pyvc.unit import unit
 
 GR = "androguard/decompiler/graph.py"
 META = {
+    "technique": 'bounded stand-in (not proved): contract on the real compute_rpo evaluated on exhaustive small graphs + seeded random graphs',
     "level": "exploration",
     "partial": True,
     "level_text": "Bounded stand-in (NOT a proof): for every rooted digraph with up to 4 nodes whose nodes are all reachable (the "
